@@ -775,14 +775,7 @@ def evaluate(ctx, g, gs, ssx, rows):
             if construct:
                 run.violation(f"inputs: hooks called while constructing the models: {construct[:3]}", rep)
             problems = []
-            # OpenTelemetry async client WITH a tracer, subscription: _send_subscribe_with_telemetry converts the
-            # variables for the span attribute and _send_subscribe converts them again (finding F31)
-            tel_ws = (isinstance(mode, str) and mode.endswith(":ws") and g.sc.config.get("opentelemetry_client")
-                      and r.get("tracer_used"))
-            if tel_ws and exp and multiset(ser_log) == multiset(exp + exp):
-                run.finding("F31-telemetry-subscribe-converts-twice",
-                            f"inputs (subscription, OpenTelemetry client with tracer): every serialize call happens twice: {ser_log[:4]}", rep)
-                continue
+            # (F31 - subscription variables converted twice under a tracer - is fixed: /repo ea8d0e4; no routing)
             if multiset(ser_log) != multiset(exp):
                 extra = multiset(ser_log) - multiset(exp)
                 missing = multiset(exp) - multiset(ser_log)
